@@ -26,6 +26,13 @@ RULE = ('cases = generating model of a join query: 1-3 data items (tables of int
         'like the model, two models of one version; referenced by any unique name), un-aliased versions, model JOIN table '
         'ON model.col = table.col, a second value for one argument, USING keys with a dot (own dotted name, every unique '
         'name of every item as prefix), to_predict = [] / two targets, a table of a schema named like the project; '
+        'later families (generated and listed): the same model name in a second project with other targets (catalog of every '
+        'shape, both orders, a condition on each: own target / the other project\'s target / an input), BETWEEN and IN whose '
+        'other operands are not all constants (bounds / elements: column of the same table, of another table, of the model, '
+        'arithmetic, function, constant expression; 5 FROM shapes; with and without OR), the model\'s ON clause with two '
+        'columns for one model column and with constants for the model (m.a = 1, 1 = m.a, target, non-equality, under OR / '
+        'NOT; JOIN / INNER / LEFT; model first), un-aliased model versions referenced without the version (pred.col for '
+        'proj.pred.3); judged in addition: what is left of every ON clause in its JoinStep; '
         'non-trivial = (>= 1 model atom and >= 1 table atom in WHERE) or a non-conjunctive WHERE; distinct by (catalog, text)')
 ASSUMPTIONS = ['the planner is handed the tree parse_sql(text, "mindsdb") produces; the model and the parsed tree are '
                'compared first (a mismatch is a harness error, not a verdict)',
@@ -39,7 +46,18 @@ ASSUMPTIONS = ['the planner is handed the tree parse_sql(text, "mindsdb") produc
                'a USING key addresses the item named by its longest dotted prefix (alias, or any name of an un-aliased item '
                'that is unique in the query, in any case); a dotted key whose prefixes name no item of the query is the '
                'name of the option and is for every model',
-               'an item is referenced by a name that only it has (SQL name resolution); ambiguous references are not generated']
+               'an item is referenced by a name that only it has (SQL name resolution); ambiguous references are not generated',
+               'an un-aliased model version `proj.pred.3` is named by `pred.3` / `proj.pred.3` and by the name of the model, `pred` / '
+               '`proj.pred` (the version selects, it is no name: `3.col` is no column reference)',
+               '`model.col = constant` as top-level conjunct of the ON clause of the model\'s own INNER join is an equality condition '
+               'between a model column and a constant like the same conjunct of WHERE (the two are equivalent there): it becomes an '
+               'argument and stops being a join condition; with LEFT JOIN either reading is accepted (argument, or condition of the '
+               'match), consistently; ON clauses of other items are not generated with model constants',
+               'two ON equalities that give one model column two different columns cannot both be the mapping: accepted are a '
+               'PlanningException naming "Multiple" or a plan in which exactly the conjunct whose column is mapped stops being a join '
+               'condition; a conjunct of an ON clause that became neither a mapping nor an argument is still in the JoinStep, unchanged',
+               'column names are compared as written (m.a and m.A are two arguments, m.x and m.X two mapped columns); only the '
+               'prediction targets are compared case-insensitively (pinned by the repository)']
 _F = {'__nontrivial__': 1600, 'clean-nontrivial': 900, 'where:conjunction': 2000, 'where:non-conjunctive': 1000,
       'atom:marg': 2200, 'atom:mtarget': 280, 'atom:mrev': 380, 'atom:tconst': 1200, 'atom:mtcol': 370,
       'ctx:m:under-not': 340, 'ctx:m:under-or': 420, 'ctx:t:under-not': 130, 'ctx:m:under-func': 100,
@@ -51,7 +69,14 @@ _F = {'__nontrivial__': 1600, 'clean-nontrivial': 900, 'where:conjunction': 2000
       'catalog:legacy': 800, 'catalog:default-proj': 800, 'catalog:default-int1': 800, 'catalog:dicts': 800,
       'names:shared-suffix': 170, 'on:model-first': 70, 'table:schema-named-like-project': 120,
       'to_predict:empty-list': 140, 'where:duplicate-argument': 120, 'atom:mtarget2': 25}
-FLOORS = {'quick': dict(_F), 'thorough': {k: v * 8 for k, v in _F.items()}}
+# later shape families: (quick, thorough) -- the listed parts do not grow with the tier
+_F2 = {'models:same-name-two-projects': (600, 4600), 'item:model-of-project2': (1200, 9600),
+       'where:between-non-constant-bound': (1100, 6400), 'between:upper-bound': (380, 3000), 'between:lower-bound': (200, 1500),
+       'between:both-bounds': (540, 1900), 'between:column-const-nonconst:top-level': (290, 2300),
+       'where:in-list-with-column': (400, 2800), 'on:duplicate-mapping': (300, 2400), 'on:model-argument': (540, 4300),
+       'judged:on-argument': (340, 2700), 'judged:join-condition': (2700, 21000), 'names:version-less': (200, 1600)}
+FLOORS = {'quick': dict(_F, **{k: v[0] for k, v in _F2.items()}),
+          'thorough': dict({k: v * 8 for k, v in _F.items()}, **{k: v[1] for k, v in _F2.items()})}
 N = {'quick': 800, 'thorough': 8000}
 
 TABLES = {'t1': 'int1', 't2': 'int1', 't3': 'int2', 't4': 'int2'}
@@ -199,16 +224,74 @@ class Q:
         if i.get('alias'):
             return [(i['alias'].lower(),)]
         p = [x.lower() for x in self.written_parts(idx)]
+        return [tuple(p[k:]) for k in range(len(p))] + self.versionless_tuples(idx)
+
+    def versionless_tuples(self, idx):
+        """`proj.pred.3` is version 3 of the model proj.pred: the names of the model without the version name it too."""
+        i = self.items[idx]
+        if i.get('alias') or i['k'] != 'model' or i.get('version') is None:
+            return []
+        p = [x.lower() for x in self.written_parts(idx)][:-1]
         return [tuple(p[k:]) for k in range(len(p))]
 
-    def resolve(self, parts):
+    def uses_versionless(self):
+        """Is an un-aliased model version referenced (column, USING key) by a name without the version?"""
+        found = []
+
+        def operand(o):
+            if 'col' in o:
+                t = tuple(self.qual_text(o['of'], o.get('q', 0)).lower().split('.'))
+                if t in self.versionless_tuples(o['of']):
+                    found.append(t)
+            for k in ('x', 'y'):
+                if isinstance(o.get(k), dict):
+                    operand(o[k])
+            for x in o.get('list', ()):
+                operand(x)
+
+        def tree(t):
+            if t is None:
+                return
+            for k in ('and', 'or'):
+                if k in t:
+                    for x in t[k]:
+                        tree(x)
+                    return
+            for k in ('not', 'par', 'x'):
+                if k in t and 'args' not in t:
+                    return tree(t[k])
+            for o in t['args']:
+                operand(o)
+        tree(self.where)
+        for i in self.items:
+            tree(i.get('on'))
+        for k, _ in (self.using or []):
+            parts = k.lower().split('.')
+            for n in range(len(parts) - 1, 0, -1):
+                r = self.resolve(parts[:n])
+                if isinstance(r, int):
+                    if tuple(parts[:n]) in self.versionless_tuples(r):
+                        found.append(tuple(parts[:n]))
+                    break
+        return bool(found)
+
+    def resolve(self, parts, written_first=False):
         parts = tuple(str(x).lower() for x in parts)
         if not parts:
             return None
         hit = [idx for idx in range(len(self.items)) if parts in self.name_tuples(idx)]
         if len(hit) == 1:
             return hit[0]
+        if written_first and hit:
+            # reading a plan: a name that is the written name of one item and the version-less name of a model version
+            #   (never generated: it is ambiguous) stands for the former
+            hit2 = [idx for idx in hit if parts not in self.versionless_tuples(idx)]
+            if len(hit2) == 1:
+                return hit2[0]
         return (('ambiguous',) if hit else ('?',)) + parts
+
+    def resolve_out(self, parts):
+        return self.resolve(parts, True)
 
     def qualifiers(self, idx):
         """Spellings by which a column reference / USING key can name the item: shortest first, as written."""
@@ -220,6 +303,11 @@ class Q:
         for k in range(len(p) - 1, -1, -1):
             if not p[k][0].isdigit() and self.resolve(p[k:]) == idx:          # `3.col` is no column reference
                 out.append('.'.join(p[k:]))
+        if self.versionless_tuples(idx):
+            for k in range(len(p) - 2, -1, -1):
+                if self.resolve(p[k:-1]) == idx:
+                    out.append('.'.join(p[k:-1]))
+            out.sort(key=lambda x: (x.count('.'), x))
         return out
 
     def key_target(self, k):
@@ -241,7 +329,7 @@ class Q:
             v = [i['alias'], i['alias'], swapcase(i['alias'])]
         else:
             p = self.qualifiers(idx)
-            v = [p[0], p[-1]]
+            v = [p[0], p[-1], p[len(p) // 2]]
         return v[q % len(v)]
 
     # -- text
@@ -570,6 +658,8 @@ def judge(case, col):
         gfeats.append('to_predict:empty-list')
     if q.twins():
         gfeats.append('models:same-name-two-projects')
+    if q.uses_versionless():
+        gfeats.append('names:version-less')
     models = [i for i, it in enumerate(items) if it['k'] == 'model']
     model_first = items[0]['k'] == 'model'
     if model_first and len(items) > 2:
@@ -931,7 +1021,7 @@ def judge(case, col):
         own_on = on_atoms[own_join(mi)]          # model first: the condition is written at the table
         if model_first and items[1].get('on') is not None:
             classes.append('on:model-first')
-        got_cm = {k: ast_abs(v, q.resolve) for k, v in (s.columns_map or {}).items()}
+        got_cm = {k: ast_abs(v, q.resolve_out) for k, v in (s.columns_map or {}).items()}
         for (m_, cname), grp in sorted(map_groups.items()):
             if m_ != mi:
                 continue
@@ -978,17 +1068,17 @@ def judge(case, col):
         got_at = {}
         cond = cand[0].query.condition
         jfeat = ['join:' + (items[j].get('join') or 'JOIN').upper(), 'on:model' if (model_first or items[j]['k'] == 'model') else 'on:data']
-        if not match(tree_abs(on, lambda a: ('ATOM', a['id'])), ast_abs(cond, q.resolve), got_at):
+        if not match(tree_abs(on, lambda a: ('ATOM', a['id'])), ast_abs(cond, q.resolve_out), got_at):
             rec('join-condition', 'skeleton', jfeat, f'boolean structure of the ON clause of {q.item_text(j)} changed: '
                                                      f'{cond.to_string() if cond is not None else None}')
             continue
         for a, c in on_atoms[j]:
             g = got_at.get(a['id'])
             feats = jfeat + ['ctx:' + c]
-            key = [k_ for k_, grp in map_groups.items() if any(aid == a['id'] for aid, _ in grp)]
-            if key:
+            mkey = [k_ for k_, grp in sorted(map_groups.items()) if any(aid == a['id'] for aid, _ in grp)]
+            if mkey:
                 feats.append('atom:mapping')
-                if key[0] in dup_maps:
+                if mkey[0] in dup_maps:
                     feats.append('on:duplicate-mapping')
             if a['id'] in on_args:
                 feats += ['atom:' + on_args[a['id']][3], 'clause:on']
@@ -1010,7 +1100,7 @@ def judge(case, col):
         else:
             got_at = {}
             skel = tree_abs(q.where, lambda a: ('ATOM', a['id']))
-            if not match(skel, ast_abs(outer, q.resolve), got_at):
+            if not match(skel, ast_abs(outer, q.resolve_out), got_at):
                 rec('outer-filter', 'skeleton', [], f'boolean structure of the outer WHERE changed: '
                                                     f'{outer.to_string() if outer is not None else None}')
             else:
@@ -1073,7 +1163,7 @@ def judge(case, col):
                         f'`{cj.to_string()}` in the fetch of {q.item_text(idx)} comes from `{q.atom_text(hit[0])}` which is '
                         f'{hit[1]} in the ON clause')
                 continue
-            r = registry.get(erase(ast_abs(cj, q.resolve)))
+            r = registry.get(erase(ast_abs(cj, q.resolve_out)))
             if r is None:
                 rec('fetch-filter', 'unknown-origin', [tfeat], f'`{cj.to_string()}` in the fetch of {q.item_text(idx)} is no '
                                                                f'condition of the query')
@@ -1325,6 +1415,27 @@ def cases(draw):
             t = {'par': t}
         return t
 
+    def model_on_extras(ats, m, others):
+        """More conjuncts for the ON clause a model sees: a second column for one model column, constants for the model."""
+        maps = [a for a in ats if a['op'] == '=' and all('col' in o for o in a['args']) and any(o['of'] == m for o in a['args'])]
+        if maps and chance(1, 6):
+            src, i = pick(maps), next(ids)
+            mcol = [o for o in src['args'] if o['of'] == m][0]
+            a = [dict(mcol, q=draw(st.integers(0, 2))), {'col': f'k{i}', 'of': pick(others), 'q': draw(st.integers(0, 2))}]
+            if chance(1, 2):
+                a.reverse()
+            ats.insert(draw(st.integers(0, len(ats))), {'id': i, 'op': '=', 'args': a})
+        if chance(1, 3):
+            for _ in range(pick([1, 1, 2])):
+                i = next(ids)
+                form = pick(['marg', 'marg', 'marg', 'mrev', 'mtarget', 'mcmp'])
+                tg = names.targets_of(m)
+                mc = {'col': pick([f'a{i}', f'A{i}']) if form != 'mtarget' or not tg else pick(tg), 'of': m, 'q': draw(st.integers(0, 2))}
+                a = [mc, {'const': const(i, ('int', 'int', 'str', 'null', 'float'))}]
+                if form == 'mrev':
+                    a.reverse()
+                ats.insert(draw(st.integers(0, len(ats))), {'id': i, 'op': pick(['>', '!=', '<']) if form == 'mcmp' else '=', 'args': a})
+
     # ON clauses
     for j in range(1, len(items)):
         it = items[j]
@@ -1346,6 +1457,7 @@ def cases(draw):
             if chance(1, 3):
                 i = next(ids)
                 ats.append({'id': i, 'op': '=', 'args': [{'col': f'g{i}', 'of': 1, 'q': draw(st.integers(0, 2))}, {'const': const(i)}]})
+            model_on_extras(ats, 0, [1])
             it['on'] = combine(ats, chance(1, 6))
             continue
         if it['k'] == 'model':
@@ -1360,6 +1472,7 @@ def cases(draw):
                 ats.append({'id': i, 'op': '=' if not chance(1, 12) else pick(['>', '<', '!=']), 'args': a})
             if len(before_d) >= 2 and chance(1, 4):
                 ats.append(atom('ttcol', before_d, []))
+            model_on_extras(ats, j, before_d + before_m)
             it['on'] = combine(ats, chance(1, 6))
         else:
             if not before_d:
@@ -1487,17 +1600,22 @@ def exhaustive_extra():
               'model-first': [M('pred'), T('t1', tname='pred', join='JOIN')],
               'same-table-name': [T('t1'), T('t3', tname='t1', join='JOIN'), M('pred', join='JOIN')],
               'same-version': [T('t1'), M('pred', version=3, join='JOIN'), M('pred2', version=3, join='LEFT JOIN')],
-              'three': [T('t1', tname='pred2'), T('t3', tname='pred2', join='JOIN'), M('pred2', join='JOIN')]}
+              'three': [T('t1', tname='pred2'), T('t3', tname='pred2', join='JOIN'), M('pred2', join='JOIN')],
+              'version': [T('t1'), M('pred', version=1, join='JOIN')],
+              'version-first': [M('pred2', version=12), T('t1', join='JOIN')],
+              'version-and-table-like-model': [T('t1', tname='pred'), M('pred', version=1, join='JOIN')],
+              'two-versions': [T('t1'), M('pred', version=1, join='JOIN'), M('pred', version=3, join='JOIN')],
+              'two-projects': [T('t1'), M('pred', join='JOIN'), M('pred', project=2, join='JOIN')],
+              'two-projects-one-version': [T('t1'), M('pred3', version=3, join='JOIN'), M('pred3', version=3, project=2, join='JOIN')]}
     for name, items in shapes.items():
         for cat in ('list', 'dicts'):
-            n = len(Q({'catalog': cat, 'items': items}).qualifiers(0))
-            for qq in range(2):
+            for qq in range(3):
                 ats = []
                 for idx, it in enumerate(items):
                     ats.append(eq(idx + 1, col(idx, f'c{idx + 1}', qq), k(101 + idx)))
                 for with_on in (False, True):
                     its = copy.deepcopy(items)
-                    if with_on and name != 'model-first':
+                    if with_on and name not in ('model-first', 'version-first'):
                         for idx, it in enumerate(its):
                             if idx and it['k'] == 'model':
                                 it['on'] = eq(10 + idx, col(idx, f'x{idx}', qq), col(0, f'k{idx}', qq))
@@ -1551,6 +1669,94 @@ def exhaustive_extra():
                 for cat in ('list', 'legacy'):
                     yield case('to_predict', [T('t1', alias='t'), M(model, alias='m', join='JOIN')],
                                conj([a, eq(2, col(0, 'c2'), k(102)), eq(3, col(1, 'c3'), k(103))]), None, cat)
+    # (7) one model name in two projects (other targets): a condition on each, both orders
+    for model in sorted(MODELS):
+        for order in range(2):
+            for al in (True, False):
+                ms = [M(model, join='JOIN'), M(model, project=2, join='JOIN')]
+                if order:
+                    ms.reverse()
+                its = [T('t1')] + ms
+                if al:
+                    for it, a in zip(its, 'tmn'):
+                        it['alias'] = a
+                for ca in ('c1', 'y', 'z'):
+                    for cb in ('c2', 'y', 'Z'):
+                        for cat in ('list', 'legacy', 'dicts'):
+                            yield case('two-projects', its, conj([eq(1, col(1, ca), k(101)), eq(2, col(2, cb), k(102))]), None, cat)
+                yield case('two-projects', its, conj([eq(1, k(101), col(2, 'y')), eq(2, col(0, 'c2'), k(102))]))
+    # (8) comparisons of more than two operands / with a list: BETWEEN and IN whose other operands are not all constants
+    def froms():
+        yield 'table', [T('t1', alias='t'), M('pred', alias='m', join='JOIN')], (0,), None
+        yield 'two-tables', [T('t1', alias='t'), T('t3', alias='u', join='JOIN', on=eq(20, col(0, 'k20'), col(1, 'f20'))),
+                             M('pred', alias='m', join='JOIN')], (0, 1), None
+        yield 'sub-select', [S('t1', alias='t'), M('pred', alias='m', join='LEFT JOIN')], (0,), None
+        yield 'no-alias', [T('t1'), M('pred', join='JOIN')], (0,), None
+        yield 'model-in-between', [T('t1', alias='t'), M('pred', alias='m', join='JOIN'), T('t3', alias='u', join='JOIN')], (0, 2), None
+
+    def bounds(i, nm, own, other, m):
+        yield 'const', k(100 + i)
+        yield 'own', col(own, nm)
+        if other is not None:
+            yield 'other', col(other, nm)
+        yield 'model', col(m, nm)
+        yield 'arith', {'arith': '+', 'x': col(own, nm), 'y': k(i)}
+        yield 'fn', {'fn': 'abs', 'x': col(other if other is not None else own, nm)}
+        yield 'const-expr', {'fn': 'abs', 'x': k(i)}
+    for fname, its, data, _ in froms():
+        m = [i for i, it in enumerate(its) if it['k'] == 'model'][0]
+        for own in data + (m,):
+            other = ([d for d in data if d != own] or [None])[0] if own != m else data[0]
+            for ln, lo in bounds(1, 'd1', own, other, m):
+                for hn, hi in bounds(2, 'e1', own, other, m):
+                    if ln == hn == 'const':
+                        continue
+                    b = {'id': 1, 'op': 'between', 'args': [col(own, 'c1'), lo, hi]}
+                    yield case(f'between:{fname}', its, b)
+                    yield case(f'between:{fname}', its, conj([eq(2, col(m, 'c2'), k(102)), b]))
+                    yield case(f'between:{fname}', its, conj([b, {'or': [eq(3, col(data[0], 'c3'), k(103)), eq(4, col(m, 'c4'), k(104))]}]))
+            for en, el in bounds(1, 'd1', own, other, m):
+                if en == 'const':
+                    continue
+                for lst in ([k(100), el], [el, k(100)], [el, k(100), k(200)]):
+                    b = {'id': 1, 'op': 'in', 'args': [col(own, 'c1'), {'list': lst}]}
+                    yield case(f'in-list:{fname}', its, b)
+                    yield case(f'in-list:{fname}', its, conj([b, eq(2, col(m, 'c2'), k(102))]))
+    # (9) the ON clause of the model: two columns for one model column, constants for the model
+    gt = lambda i, x, y: {'id': i, 'op': '>', 'args': [x, y]}
+    for fname, its, mi, di, d2 in (('table', [T('t1', alias='t'), M('pred', alias='m')], 1, 0, None),
+                                   ('two-tables', [T('t1', alias='t'), T('t3', alias='u', join='JOIN'), M('pred', alias='m')], 2, 0, 1),
+                                   ('model-first', [M('pred', alias='m'), T('t1', alias='t')], 0, 1, None),
+                                   ('no-alias', [T('t1'), M('pred5')], 1, 0, None)):
+        j = len(its) - 1
+        mp = eq(1, col(mi, 'x1'), col(di, 'k1'))
+        ons = {'map': mp,
+               'dup': conj([mp, eq(2, col(mi, 'x1', 1), col(di, 'k2'))]),
+               'dup-reversed': conj([eq(2, col(di, 'k2'), col(mi, 'x1')), mp]),
+               'dup-3': conj([mp, eq(2, col(mi, 'x1'), col(di, 'k2')), eq(3, col(di, 'k3'), col(mi, 'x1'))]),
+               'case-variant': conj([mp, eq(2, col(mi, 'X1'), col(di, 'k2'))]),
+               'same-twice': conj([mp, eq(2, col(di, 'k1'), col(mi, 'x1'))]),
+               'const': eq(5, col(mi, 'a5'), k(105)),
+               'const-reversed': eq(5, k('s5'), col(mi, 'a5')),
+               'map-const': conj([mp, eq(5, col(mi, 'a5'), k(105))]),
+               'const-map': conj([eq(5, col(mi, 'A5'), k(None)), mp]),
+               'two-consts': conj([eq(5, col(mi, 'a5'), k(105)), mp, eq(6, k(106), col(mi, 'a6'))]),
+               'target': conj([mp, eq(5, col(mi, 'y'), k(105))]),
+               'second-target': conj([mp, eq(5, col(mi, 'z'), k(105))]),
+               'non-eq': conj([mp, gt(5, col(mi, 'a5'), k(105))]),
+               'under-or': conj([mp, {'or': [eq(5, col(mi, 'a5'), k(105)), eq(6, col(mi, 'a6'), k(106))]}]),
+               'under-not': conj([mp, {'not': eq(5, col(mi, 'a5'), k(105))}]),
+               'table-const': conj([mp, eq(5, col(di, 'g5'), k(105)), eq(6, col(mi, 'a6'), k(106))])}
+        if d2 is not None:
+            ons['dup-two-tables'] = conj([mp, eq(2, col(mi, 'x1'), col(d2, 'k2'))])
+        for oname, on in ons.items():
+            for join in ('JOIN', 'INNER JOIN', 'LEFT JOIN'):
+                for where in (None, conj([eq(8, col(mi, 'c8'), k(108)), eq(9, col(di, 'c9'), k(109))])):
+                    x = copy.deepcopy(its)
+                    for it in x[1:]:
+                        it.setdefault('join', 'JOIN')
+                    x[j]['join'], x[j]['on'] = join, on
+                    yield case(f'model-on:{fname}:{oname}', x, where)
     # (6) a table of a schema that is named like the project
     for cat in CATALOGS:
         for tname in ('pred', 'pred2'):
